@@ -16,7 +16,13 @@ RULE = ("Homogeneous domain: 1-4 distinct equilibria of a pool of 17 acid/base/c
         "root() default (NumSysLog), (NumSysLog, NumSysLin), (NumSysLin,) and EqSystem.solve().  Every result flagged "
         "`success and sane` is judged against x >= 0, element/charge totals of the initial state and Q = K, all "
         "computed from the case description; anything else is inconclusive.  'success_rate' runs the default chain on "
-        "batches of 200 cases of the same domain and requires >= 190 successes per batch.  'single' compares "
+        "batches of 200 cases of the same domain and requires >= 190 successes per batch; 'success_rate_solve' / "
+        "'success_rate_loglin' do the same for EqSystem.solve(init_concs) (whose default chain is (NumSysLog, NumSysLin)) "
+        "and for root(NumSys=(NumSysLog, NumSysLin)) on the 200 generated cases plus their 200 mirror images (K shift "
+        "d -> -d, log10 c0 -> -6 - log10 c0, both maps of the domain onto itself): >= 380 of 400.  Structural clause of "
+        "'under each solver chain' (homogeneous, lin_chain, root_x0, root_options): the stages recorded in root()'s info "
+        "are of the requested formulations in the requested order (Log stage: x_vecs[k] = exp(stage x); Lin: equal).  "
+        "'single' compares "
         "one-equilibrium systems with chempy._equilibrium.solve_equilibrium.  'precipitation': one salt "
         "MX(s) = M + X (NaCl, AgCl, BaSO4, KNO3; CaF2 in 'precipitation_1_2'), Ksp = 10^U(-4, 0), initial amounts "
         "10^U(-3, 1) or zero in five shapes, chains (Lin,), (Log,), (Log, Lin) with rref_preserv=True, tol=1e-12 as in "
@@ -325,7 +331,7 @@ def failure_signature(own, chain, species, nets, Ks, c0, xs, dev, index, mag=Non
     return out
 
 
-def judge_common(ctx, species, x, c0, detail, own=None, chain=None, nets=(), Ks=(), opts=None, sane_ref=None):
+def judge_common(ctx, species, x, c0, detail, own=None, chain=None, nets=(), Ks=(), opts=None):
     """Non-negativity, finiteness and conservation.  Returns False when a failure was reported."""
     import mpmath
     xs = [float(v) for v in x]
@@ -345,14 +351,7 @@ def judge_common(ctx, species, x, c0, detail, own=None, chain=None, nets=(), Ks=
     for s in species:
         bound = min(tot0[k] / n for k, n in G.COMP[s].items() if k != 0 and n > 0)
         if conc[s] > bound * (1 + 1e-6):       # chempy's own test uses 1e-9; 1e-6 keeps float noise out
-            more = {}
-            if sane_ref is not None:
-                # the state chempy itself judged `sane` against, when that is not the point's own initial state
-                # (EqSystem.roots uses the base state for every point of the series): classification only
-                tr = G.totals(sane_ref, species)
-                bref = min(tr[k] / n for k, n in G.COMP[s].items() if k != 0 and n > 0)
-                more["within_bound_of_sanity_reference_state"] = bool(conc[s] <= bref * (1 + 1e-9))
-            ctx.fail("exceeds_elemental_upper_bound", species=s, got=conc[s], bound=bound, x=xs, **dict(more, **detail))
+            ctx.fail("exceeds_elemental_upper_bound", species=s, got=conc[s], bound=bound, x=xs, **detail)
             return False
     with mpmath.workdps(30):
         for j, k in enumerate(G.comp_keys(species)):
@@ -390,13 +389,13 @@ def build08(M):
     return es
 
 
-def judge_homog(ctx, M, x, chain, own=None, extra=None, opts=None, sane_ref=None):
+def judge_homog(ctx, M, x, chain, own=None, extra=None, opts=None):
     """True when the result is genuine."""
     import mpmath
     xs = [float(v) for v in x]
     detail = {"chain": chain, "min_over_max": spread(xs)}
     detail.update(extra or {})
-    if not judge_common(ctx, M.species, x, M.c0, detail, own, chain, M.nets, M.K, opts, sane_ref):
+    if not judge_common(ctx, M.species, x, M.c0, detail, own, chain, M.nets, M.K, opts):
         return False
     conc = dict(zip(M.species, xs))
     for i, net in enumerate(M.nets):
@@ -659,8 +658,7 @@ def check_series(case, ctx):
                     return None
                 return _last_stage(again[1])
         judged += 1
-        judge_homog(ctx, P, x, chain, own, extra={"grid_index": list(index), "varied_keys": axes},
-                    sane_ref=M.c0 if M.api == "roots" else None)
+        judge_homog(ctx, P, x, chain, own, extra={"grid_index": list(index), "varied_keys": axes})
     if judged == 0:
         ctx.skip("no_success:" + chain)
         return
